@@ -36,7 +36,7 @@ ASSUMPTIONS = [
     "spinCustom is applied only while the platform stands at its neutral relative pose (DESIGN C09 G)",
     "FK calls run under a 30 s runaway guard (fsolve / fallback recursion) -> inconclusive, counted",
     "three proposed open known findings (fk_regions): Raphson runs out of iterations / lands on a second exact root for "
-    "top/bottom ratio <= 0.40 under |rotation vector| >= 0.25, and fk_mode=0 (fsolve) returning another exact root of "
+    "top/bottom ratio <= 0.40 under |rotation vector| >= 0.20, and fk_mode=0 (fsolve) returning another exact root of "
     "the leg-length equations; each is recognised by a signature computed from public state (fail_count + plates at "
     "neutral; returned pose reproduces the requested lengths to 0.3e-3 h over the requested base) -- cases are executed "
     "and counted, nothing else is suppressed",
@@ -328,75 +328,88 @@ def _fk_roundtrip(case, ctx):
         # clause's domain by the property's own wording; counted.  (Whether that refusal is right is C10.)
         ctx.skip("library did not accept a pose the oracle places inside the workspace (valid=%s)" % bool(valid))
 
-    # reset to neutral, then FK
-    sps.reset_neutral(sp, model, T_bot)
-    if not sps.accepted_unchanged(sp, T_bot, sps.neutral_top(model, T_bot)):
-        raise Violation("protected IK to the neutral pose did not leave the platform at the requested poses")
-    Larg = np.array(L, dtype=float).reshape((6, 1) if case["col"] else (6,))
-    kw = {"fk_mode": mode}
-    if case["plate_pos"]:
-        # Only for the Raphson solver (fk_mode 1), which iterates in base-relative coordinates and therefore really
-        # does "start from the neutral pose" over the new base.  fk_mode 0 starts scipy's fsolve from the GLOBAL top
-        # pose it finds, which for a displaced base is not the neutral pose of the statement: not generated.
-        if case.get("pp_x") is not None and mode == 1:
-            X = O.pose_from_taa(np.asarray(case["pp_x"], dtype=float))
-            T_bot, T_top = X @ T_bot, X @ T_top          # what FK is now asked to assemble
-            ctx.label("plate_pos given, different from the current base")
-            ctx.nontrivial(True)
-        else:
-            ctx.label("plate_pos given")
-        kw["plate_pos"] = sps.make_tm(T_bot)
-    if case["mode_attr"]:
-        sp.fk_mode = mode
-        kw.pop("fk_mode")
-    with time_guard(GUARD_S):
-        ret = sut(sp.FK, Larg, **kw)
-    if not (isinstance(ret, tuple) and len(ret) == 2):
-        raise Violation("FK returned %r, not (pose, valid)" % (type(ret),))
-    top_ret = sps.held(ret[0])
-    Tb_now, Tt_now = sps.read_poses(sp)
-    tol = FK_TOL * h
-    if not (np.all(np.isfinite(top_ret)) and np.all(np.isfinite(Tt_now)) and np.all(np.isfinite(Tb_now))):
-        raise Violation("FK(mode %d) produced non-finite poses" % mode)
-    e_ret = _pose_err(model, top_ret, T_top)
-    e_state = _pose_err(model, O.inv(Tb_now) @ Tt_now, O.inv(T_bot) @ T_top)
-    e_top = _pose_err(model, Tt_now, T_top)
-    Lnow = _lengths(sut(sp.getLens), "getLens")
-    e_len = float(np.abs(Lnow - L).max())
-    e_bot = _pose_err(model, Tb_now, T_bot)
-    ctx.label("fk err/h " + _decade(max(e_ret, e_state, e_top, e_len, 1e-300), h))
-    ctx.label("FK valid=%s" % bool(ret[1]))
-    fails = int(getattr(sp, "fail_count", 0) or 0)
-    if fails:
-        ctx.label("solver fail_count>0")
-    # signature of "the Raphson solver ran out of iterations and put the platform back to neutral" (public fail_count
-    # attribute + the plates standing exactly at neutral): named in the message so that the known-finding region
-    # predicate can be as narrow as that defect
-    tag = ""
-    if fails and _pose_err(model, Tt_now, sps.neutral_top(model, T_bot)) <= 1e-9 * max(1.0, model.scale, big):
-        low = min(h, float(ws.T_rel[2, 3])) < 0.5 * model.lmin * (1 + 1e-6)     # where the (fixed) height clamp bit
-        tag = "[raphson-gave-up ratio=%.6f rot=%.6f flat=%d] " % (
-            model.spec["rt"] / model.spec["rb"], float(np.linalg.norm(u[3:])), int(low))
-    # signature of "FK returned ANOTHER root of the leg-length equations" (a different assembly mode): the returned pose
-    # is off, yet over the requested base it reproduces the requested lengths (oracle distances) far inside the pose
-    # tolerance.  No solver-tolerance, frame or bookkeeping error looks like that.
-    elif e_ret > tol:
-        d_root = float(np.abs(sps.oracle_leg_lengths(model, T_bot, top_ret) - L).max())
-        if d_root <= 0.3 * tol:
-            tag = "[other-fk-root mode=%d ratio=%.6f rot=%.6f dlen=%.2e] " % (
-                mode, model.spec["rt"] / model.spec["rb"], float(np.linalg.norm(u[3:])), d_root)
-    msg = "%sFK(mode %d, h=%.4g, tol=%.3g)" % (tag, mode, h, tol)
-    if e_bot > tol:
-        raise Violation("%s: getBottomT() is %.3g from the fixed-plate pose FK was given" % (msg, e_bot))
-    if e_ret > tol:
-        raise Violation("%s: returned pose is %.3g from the goal pose (largest displacement of a top-plate point)"
-                        % (msg, e_ret))
-    if e_top > tol:
-        raise Violation("%s: getTopT() is %.3g from the goal pose" % (msg, e_top))
-    if e_state > tol:
-        raise Violation("%s: getBottomT()^-1 getTopT() is %.3g from the goal relative pose" % (msg, e_state))
-    if e_len > tol:
-        raise Violation("%s: getLens() differs from the requested lengths by %.3g" % (msg, e_len))
+    T_bot0, T_top0 = T_bot.copy(), T_top.copy()
+    # One pass = reset to neutral, FK, verify.  A second pass ("again") repeats the SAME request after going back to
+    # neutral -- with the same or with the other solver: FK is a function of (lengths, fixed plate), whatever was
+    # asked before.
+    passes = [mode]
+    if case.get("again") == "same":
+        passes.append(mode)
+    elif case.get("again") == "other":
+        passes.append(1 - mode)
+    if len(passes) > 1:
+        ctx.label("FK asked twice (%s solver the second time)" % case["again"])
+    for mode in passes:
+        T_bot, T_top = T_bot0.copy(), T_top0.copy()
+        # reset to neutral, then FK
+        sps.reset_neutral(sp, model, T_bot)
+        if not sps.accepted_unchanged(sp, T_bot, sps.neutral_top(model, T_bot)):
+            raise Violation("protected IK to the neutral pose did not leave the platform at the requested poses")
+        Larg = np.array(L, dtype=float).reshape((6, 1) if case["col"] else (6,))
+        kw = {"fk_mode": mode}
+        if case["plate_pos"]:
+            # Only for the Raphson solver (fk_mode 1), which iterates in base-relative coordinates and therefore really
+            # does "start from the neutral pose" over the new base.  fk_mode 0 starts scipy's fsolve from the GLOBAL top
+            # pose it finds, which for a displaced base is not the neutral pose of the statement: not generated.
+            if case.get("pp_x") is not None and mode == 1:
+                X = O.pose_from_taa(np.asarray(case["pp_x"], dtype=float))
+                T_bot, T_top = X @ T_bot, X @ T_top          # what FK is now asked to assemble
+                ctx.label("plate_pos given, different from the current base")
+                ctx.nontrivial(True)
+            else:
+                ctx.label("plate_pos given")
+            kw["plate_pos"] = sps.make_tm(T_bot)
+        if case["mode_attr"]:
+            sp.fk_mode = mode
+            kw.pop("fk_mode")
+        with time_guard(GUARD_S):
+            ret = sut(sp.FK, Larg, **kw)
+        if not (isinstance(ret, tuple) and len(ret) == 2):
+            raise Violation("FK returned %r, not (pose, valid)" % (type(ret),))
+        top_ret = sps.held(ret[0])
+        Tb_now, Tt_now = sps.read_poses(sp)
+        tol = FK_TOL * h
+        if not (np.all(np.isfinite(top_ret)) and np.all(np.isfinite(Tt_now)) and np.all(np.isfinite(Tb_now))):
+            raise Violation("FK(mode %d) produced non-finite poses" % mode)
+        e_ret = _pose_err(model, top_ret, T_top)
+        e_state = _pose_err(model, O.inv(Tb_now) @ Tt_now, O.inv(T_bot) @ T_top)
+        e_top = _pose_err(model, Tt_now, T_top)
+        Lnow = _lengths(sut(sp.getLens), "getLens")
+        e_len = float(np.abs(Lnow - L).max())
+        e_bot = _pose_err(model, Tb_now, T_bot)
+        ctx.label("fk err/h " + _decade(max(e_ret, e_state, e_top, e_len, 1e-300), h))
+        ctx.label("FK valid=%s" % bool(ret[1]))
+        fails = int(getattr(sp, "fail_count", 0) or 0)
+        if fails:
+            ctx.label("solver fail_count>0")
+        # signature of "the Raphson solver ran out of iterations and put the platform back to neutral" (public fail_count
+        # attribute + the plates standing exactly at neutral): named in the message so that the known-finding region
+        # predicate can be as narrow as that defect
+        tag = ""
+        if fails and _pose_err(model, Tt_now, sps.neutral_top(model, T_bot)) <= 1e-9 * max(1.0, model.scale, big):
+            low = min(h, float(ws.T_rel[2, 3])) < 0.5 * model.lmin * (1 + 1e-6)     # where the (fixed) height clamp bit
+            tag = "[raphson-gave-up ratio=%.6f rot=%.6f flat=%d] " % (
+                model.spec["rt"] / model.spec["rb"], float(np.linalg.norm(u[3:])), int(low))
+        # signature of "FK returned ANOTHER root of the leg-length equations" (a different assembly mode): the returned pose
+        # is off, yet over the requested base it reproduces the requested lengths (oracle distances) far inside the pose
+        # tolerance.  No solver-tolerance, frame or bookkeeping error looks like that.
+        elif e_ret > tol:
+            d_root = float(np.abs(sps.oracle_leg_lengths(model, T_bot, top_ret) - L).max())
+            if d_root <= 0.3 * tol:
+                tag = "[other-fk-root mode=%d ratio=%.6f rot=%.6f dlen=%.2e] " % (
+                    mode, model.spec["rt"] / model.spec["rb"], float(np.linalg.norm(u[3:])), d_root)
+        msg = "%sFK(mode %d, h=%.4g, tol=%.3g)" % (tag, mode, h, tol)
+        if e_bot > tol:
+            raise Violation("%s: getBottomT() is %.3g from the fixed-plate pose FK was given" % (msg, e_bot))
+        if e_ret > tol:
+            raise Violation("%s: returned pose is %.3g from the goal pose (largest displacement of a top-plate point)"
+                            % (msg, e_ret))
+        if e_top > tol:
+            raise Violation("%s: getTopT() is %.3g from the goal pose" % (msg, e_top))
+        if e_state > tol:
+            raise Violation("%s: getBottomT()^-1 getTopT() is %.3g from the goal relative pose" % (msg, e_state))
+        if e_len > tol:
+            raise Violation("%s: getLens() differs from the requested lengths by %.3g" % (msg, e_len))
 
 
 _TAG = re.compile(r"\[raphson-gave-up ratio=([0-9.]+) rot=([0-9.]+) flat=(\d)\]")
@@ -407,7 +420,7 @@ def fk_regions(case, message):
     """Proposed open known finding C09-raphson-inexact-jacobian: SPFKinSpaceR's orientation columns are Euler-angle
     partials although the unknowns are a rotation vector; the iteration is then not locally convergent for a small top
     plate under a large tilt, runs out of iterations and FK silently returns the neutral pose.  Region: the solver gave
-    up (signature above) AND top/bottom radius ratio <= 0.40 AND |rotation vector| >= 0.25 AND neither the neutral
+    up (signature above) AND top/bottom radius ratio <= 0.40 AND |rotation vector| >= 0.20 AND neither the neutral
     nor the goal height is below leg_ext_min/2 ('flat=0'; below it is the separate, fixed, height-clamp defect)."""
     spec = case["spec"]
     ratio = spec["rt"] / spec["rb"]
@@ -415,13 +428,18 @@ def fk_regions(case, message):
     m = _TAG.search(message)
     if m:
         rot = float(m.group(2))
-        if rot <= umax and ratio <= 0.40 and rot >= 0.25 and m.group(3) == "0":
+        # tilt threshold 0.20: measured extent of the defect (ratio 0.3, joint spacing 40 deg gives up from a tilt of
+        # ~0.23 on; no give-up was found at <= 0.22 over ratios 0.3..0.5 x spacings 5..40 deg x both tilt axes)
+        if rot <= umax and ratio <= 0.40 and rot >= 0.20 and m.group(3) == "0":
             return "raphson_small_top_large_tilt"
         return None
     m = _TAG2.search(message)
     if m:
         mode, rot = int(m.group(1)), float(m.group(3))
-        if mode != int(case["fk_mode"]) or rot > umax:
+        allowed = {int(case["fk_mode"])}
+        if case.get("again") == "other":
+            allowed.add(1 - int(case["fk_mode"]))       # the second pass of the case runs the other solver
+        if mode not in allowed or rot > umax:
             return None
         # proposed open known finding C09-fsolve-other-assembly-mode: fk_mode=0 hands the six length equations to
         # scipy's fsolve in global rotation-vector coordinates; the equations have many roots and now and then it
@@ -432,8 +450,8 @@ def fk_regions(case, message):
         # proposed open known finding C09-raphson-other-assembly-mode: with a small top plate the orientation is weakly
         # determined by the legs; at the box corner of the ratio-0.3 geometries a second exact solution lies 0.015 from
         # the goal and Newton from neutral lands on it.  Region: fk_mode 1 AND exact root AND ratio <= 0.40 AND
-        # |rotation vector| >= 0.25.
-        if ratio <= 0.40 and rot >= 0.25:
+        # |rotation vector| >= 0.20.
+        if ratio <= 0.40 and rot >= 0.20:
             return "raphson_other_root_small_top_large_tilt"
     return None
 
@@ -508,6 +526,7 @@ def _fk_cases(kind):
         # when the fixed plate is passed explicitly it may also differ from where the platform stands: FK then has to
         # assemble the platform over THAT base (X . T_bot), i.e. recover X . T_top
         "pp_x": st.one_of(st.none(), st.none(), G.taas(maxnorm=3.0, maxang=2.0)),
+        "again": st.sampled_from([None, None, None, "same", "other"]),
         "col": st.booleans(),
         "seed": _SEED,
     })
